@@ -287,9 +287,8 @@ impl<S: ClientStream> AgentClient<S> {
         let mut resp = r.read_string()?.reader(0);
         let _t = resp.read_string()?;
         let sig = resp.read_string()?;
-
-        let mut out = [0; 64];
-        out.copy_from_slice(sig);
+        // Nb. The signature length is chosen by the agent.
+        let out = Signature::try_from(sig).map_err(|_| Error::AgentProtocolError)?;
 
         Ok(out)
     }
